@@ -136,6 +136,10 @@ static TapkeeOutput embed_one(stichwort::ParametersSet parameters, const std::ve
     try
     {
         parameters.check();
+        [](auto& p) {   // embed.hpp calls checkTypes between check() and merge() since fix F27
+            if constexpr (requires { p.checkTypes(tapkee_internal::defaults); })
+                p.checkTypes(tapkee_internal::defaults);
+        }(parameters);
         parameters.merge(tapkee_internal::defaults);
         tapkee_internal::Context context(nullptr, nullptr);
         tapkee_internal::ImplementationBase<It, KC, matrix_distance_callback, FC> base(
